@@ -1,7 +1,19 @@
 package main
 
 import (
+	"bytes"
+	"encoding/json"
+	"fmt"
+	"go/ast"
+	"go/importer"
+	"go/parser"
 	"go/token"
+	"go/types"
+	"io"
+	"os"
+	"os/exec"
+	"path/filepath"
+	"strings"
 )
 
 type rangeKindT int
@@ -25,23 +37,115 @@ func (ti *typeInfo) rangeKind(rel string, pos token.Position) rangeKindT {
 }
 
 func key(rel string, pos token.Position) string {
-	return rel + ":" + itoa(pos.Line) + ":" + itoa(pos.Column)
+	return fmt.Sprintf("%s:%d:%d", rel, pos.Line, pos.Column)
 }
 
-func itoa(i int) string {
-	if i == 0 {
-		return "0"
-	}
-	var b [20]byte
-	n := len(b)
-	for i > 0 {
-		n--
-		b[n] = byte('0' + i%10)
-		i /= 10
-	}
-	return string(b[n:])
+type listPkg struct {
+	ImportPath string
+	Dir        string
+	Export     string
+	GoFiles    []string
+	Standard   bool
+	Error      *struct{ Err string }
 }
 
+// loadTypes type-checks the (still unrewritten) packages that are going to be rewritten, importing
+// their dependencies from the export data the go command produces, and records which range
+// statements iterate over maps with ordered keys and over channels.
 func loadTypes(out string, files []string) *typeInfo {
-	return nil
+	ti := &typeInfo{ranges: map[string]rangeKindT{}}
+	cmd := exec.Command("go", "list", "-export", "-deps", "-json=ImportPath,Dir,Export,GoFiles,Standard,Error",
+		"./internal/...", "./pkg/...", "./config/...", ".", "github.com/glebziz/containers/...")
+	cmd.Dir = out
+	cmd.Env = append(os.Environ(), "GOFLAGS=-mod=mod -trimpath")
+	var stderr bytes.Buffer
+	cmd.Stderr = &stderr
+	outb, err := cmd.Output()
+	if err != nil {
+		// packages that need build tags (mocks of test helpers) fail to list; tolerate partial output
+		if len(outb) == 0 {
+			die("go list -export: %v\n%s", err, stderr.String())
+		}
+	}
+	exports := map[string]string{}
+	var pkgs []*listPkg
+	dec := json.NewDecoder(bytes.NewReader(outb))
+	for {
+		var p listPkg
+		if err := dec.Decode(&p); err == io.EOF {
+			break
+		} else if err != nil {
+			die("go list json: %v", err)
+		}
+		if p.Export != "" {
+			exports[p.ImportPath] = p.Export
+		}
+		pp := p
+		pkgs = append(pkgs, &pp)
+	}
+	want := map[string]bool{}
+	for _, f := range files {
+		want[filepath.Dir(filepath.Join(out, f))] = true
+	}
+	fset := token.NewFileSet()
+	imp := importer.ForCompiler(fset, "gc", func(path string) (io.ReadCloser, error) {
+		e, ok := exports[path]
+		if !ok {
+			return nil, fmt.Errorf("no export data for %s", path)
+		}
+		return os.Open(e)
+	})
+	absOut, _ := filepath.Abs(out)
+	for _, p := range pkgs {
+		if p.Standard || !want[p.Dir] || len(p.GoFiles) == 0 {
+			continue
+		}
+		var asts []*ast.File
+		var rels []string
+		for _, gf := range p.GoFiles {
+			full := filepath.Join(p.Dir, gf)
+			f, err := parser.ParseFile(fset, full, nil, parser.SkipObjectResolution)
+			if err != nil {
+				die("parse %s: %v", full, err)
+			}
+			asts = append(asts, f)
+			rel, _ := filepath.Rel(absOut, full)
+			rels = append(rels, rel)
+		}
+		info := &types.Info{Types: map[ast.Expr]types.TypeAndValue{}}
+		conf := types.Config{Importer: imp, Error: func(error) {}}
+		if _, err := conf.Check(p.ImportPath, fset, asts, info); err != nil {
+			fmt.Fprintf(os.Stderr, "verifgen: note: type-checking %s: %v (map ranges of this package stay unordered)\n", p.ImportPath, err)
+		}
+		for i, f := range asts {
+			rel := rels[i]
+			ast.Inspect(f, func(n ast.Node) bool {
+				rs, ok := n.(*ast.RangeStmt)
+				if !ok {
+					return true
+				}
+				tv, ok := info.Types[rs.X]
+				if !ok || tv.Type == nil {
+					return true
+				}
+				switch u := tv.Type.Underlying().(type) {
+				case *types.Map:
+					if b, ok := u.Key().Underlying().(*types.Basic); ok && b.Info()&types.IsOrdered != 0 {
+						ti.ranges[key(rel, fset.Position(rs.Pos()))] = rangeMap
+					}
+				case *types.Chan:
+					ti.ranges[key(rel, fset.Position(rs.Pos()))] = rangeChan
+				}
+				return true
+			})
+		}
+	}
+	if os.Getenv("VERIFGEN_VERBOSE") != "" {
+		var ks []string
+		for k, v := range ti.ranges {
+			ks = append(ks, fmt.Sprintf("%s=%d", k, v))
+		}
+		fmt.Fprintln(os.Stderr, "verifgen: typed ranges:", strings.Join(ks, " "))
+	}
+	return ti
 }
